@@ -192,7 +192,9 @@ def run(tier, seed, replay=None):
         cases = vf.load_corpus(PROP)
         n = 150 if tier == "quick" else 4000
         for i in range(n):
-            cases.append(tickgen.gen_case(r.rng, perms=(5 if tier == "quick" else 12)))
+            # a third of the ticks pass the descent chain to apply_in_warp (Stage B1): candidates matched inside a descended
+            # instance then read the portal slots of their ancestors, so conflicts and witnesses cross instances
+            cases.append(tickgen.gen_case(r.rng, perms=(5 if tier == "quick" else 12), extra=("descent=1" if i % 3 == 2 else "")))
         for _ in range(1 if tier == "quick" else 4):
             cases.append(tickgen.gen_case(r.rng, big=True, perms=1))
     try:
